@@ -228,6 +228,11 @@ func receiveFromTransport(ctx context.Context, c *channel, done chan<- struct{})
 				if c.client && e.State.Step() >= c.State().Step() {
 					c.setStateWLock(e.State)
 				}
+				if c.client && c.State() == SessionStateEstablished {
+					// A session envelope that does not end the session: the receiver stops here
+					// all the same, so the channel must not go on looking established.
+					_ = c.transport.Close()
+				}
 				return
 			}
 		default:
